@@ -1,0 +1,34 @@
+//go:build verif
+
+// Machine-checked contracts (comment-only; compiled only under the build tag "verif").
+package deployment
+
+//@ track waitAllUpdatedAndReady as waitAll
+
+//@ func (*realCanaryController).UpgradeBatch
+//@ props C01 C06
+//@ requires r != nil && ctx != nil && r.canaryInfo != nil
+//@ ensures one_write: #Patch <= 1 && #Update == 0 && #Create == 0 && #Delete == 0
+//@ ensures only_forward: #Patch == 1 ==> old(ctx.DesiredUpdatedReplicas) > old(r.canaryInfo.Replicas)
+//@ ensures idempotent: old(r.canaryInfo.Replicas) >= old(ctx.DesiredUpdatedReplicas) ==> #Patch == 0 && result == nil
+//@ ensures body: #Patch == 1 ==> patchBody(#Patch.arg3) == sprintf("{\"spec\":{\"replicas\":%d}}", old(ctx.DesiredUpdatedReplicas))
+
+//@ func (*realController).CalculateBatchContext
+//@ props C01
+//@ requires rc != nil && release != nil && rc.stableObject != nil && rc.stableObject.Spec.Replicas != nil && rc.canaryObject != nil
+//@ requires 0 <= release.Status.CanaryStatus.CurrentBatch && release.Status.CanaryStatus.CurrentBatch < len(release.Spec.ReleasePlan.Batches)
+//@ requires *rc.stableObject.Spec.Replicas >= 0
+//@ ensures planned: result1 == nil ==> result0 != nil && result0.DesiredUpdatedReplicas == clamp(ios_scaled(release.Spec.ReleasePlan.Batches[release.Status.CanaryStatus.CurrentBatch].CanaryReplicas, *rc.stableObject.Spec.Replicas, true), 0, *rc.stableObject.Spec.Replicas)
+//@ ensures within: result1 == nil ==> 0 <= result0.DesiredUpdatedReplicas && result0.DesiredUpdatedReplicas <= *rc.stableObject.Spec.Replicas
+
+//@ func waitAllUpdatedAndReady
+//@ props C11
+//@ requires deployment != nil
+//@ ensures all_updated: result == nil ==> !deployment.Spec.Paused && deployment.Status.Replicas == deployment.Status.UpdatedReplicas
+
+//@ func (*realStableController).Finalize
+//@ props C11 C05
+//@ requires rc != nil && release != nil
+//@ ensures one_write: #Patch <= 1 && #Update == 0 && #Delete == 0
+//@ ensures released: result == nil && old(rc.stableObject) != nil ==> #Patch == 1 && #Patch.ret0 == nil
+//@ ensures waits: result == nil && old(rc.stableObject) != nil && old(release.Spec.ReleasePlan.FinalizingPolicy) == v1beta1.WaitResumeFinalizingPolicyType ==> #waitAll == 1 && #waitAll.ret0 == nil
